@@ -220,6 +220,8 @@ class Collector:
             r = out.get("reason")
             if r:
                 st.count("skip:" + r)
+            for k, v in (out.get("counters") or {}).items():
+                st.count(k, v)
             return
         nt = out.get("nontrivial")
         if nt is not None:
